@@ -22,7 +22,21 @@ from boltons.iterutils import split_iter, chunked_iter, windowed_iter, unique_it
 from boltons.funcutils import FunctionBuilder
 
 from .core import glom, T, STOP, SKIP, _MISSING, Path, TargetRegistry, Call, Spec, Pipe, S, bbrepr, format_invocation
+from .core import LAST_CHILD_SCOPE
 from .matching import Check
+
+def _glom_lazily(target, spec, scope):
+    """evaluate a sub-spec of an Iter while its iterator is being consumed,
+    possibly by a later step of the enclosing chain: that step, not
+    this evaluation, remains what the rest of the chain continues from
+    """
+    last_child = scope.maps[0].get(LAST_CHILD_SCOPE)
+    try:
+        return scope[glom](target, spec, scope)
+    finally:
+        if last_child is not None:
+            scope.maps[0][LAST_CHILD_SCOPE] = last_child
+
 
 class Iter:
     """``Iter()`` is glom's counterpart to Python's built-in :func:`iter()`
@@ -101,7 +115,7 @@ class Iter:
         base_path = scope[Path]
         for i, t in enumerate(iterator):
             scope[Path] = base_path + [i]
-            yld = (t if self.subspec is T else scope[glom](t, self.subspec, scope))
+            yld = (t if self.subspec is T else _glom_lazily(t, self.subspec, scope))
             if yld is SKIP:
                 continue
             elif yld is self.sentinel or yld is STOP:
@@ -136,7 +150,7 @@ class Iter:
             'map',
             (subspec,),
             lambda iterable, scope: imap(
-                lambda t: scope[glom](t, subspec, scope), iterable))
+                lambda t: _glom_lazily(t, subspec, scope), iterable))
 
     def filter(self, key=T):
         """Return a new :class:`Iter()` spec which will include only elements matching the
@@ -163,7 +177,7 @@ class Iter:
             'filter',
             (key,),
             lambda iterable, scope: ifilter(
-                lambda t: scope[glom](t, check_spec, scope) is not SKIP, iterable))
+                lambda t: _glom_lazily(t, check_spec, scope) is not SKIP, iterable))
 
     def chunked(self, size, fill=_MISSING):
         """Return a new :class:`Iter()` spec which groups elements in the iterable
@@ -256,7 +270,7 @@ class Iter:
         return self._add_op(
             'unique',
             (key,),
-            lambda it, scope: unique_iter(it, key=lambda t: scope[glom](t, key, scope)))
+            lambda it, scope: unique_iter(it, key=lambda t: _glom_lazily(t, key, scope)))
 
 
     def slice(self, *args):
@@ -298,7 +312,7 @@ class Iter:
             'takewhile',
             (key,),
             lambda it, scope: takewhile(
-                lambda t: scope[glom](t, key, scope), it))
+                lambda t: _glom_lazily(t, key, scope), it))
 
     def dropwhile(self, key=T):
         """Returns a new :class:`Iter()` spec which drops stream items until
@@ -319,7 +333,7 @@ class Iter:
             'dropwhile',
             (key,),
             lambda it, scope: dropwhile(
-                lambda t: scope[glom](t, key, scope), it))
+                lambda t: _glom_lazily(t, key, scope), it))
 
     # Terminal methods follow
 
